@@ -79,12 +79,10 @@ Section Interp.
       | O => Err EOutOfFuel
       | S n' =>
           let* (h, s) := r_field_begin p s in
-          match h with
-          | (TStop, _) => Ok (rev acc, s)
-          | (fty, oid) =>
-              let* (x, s) := rec fty s in
-              fields_loop n' s ((match oid with Some i => i | None => 0 end, x) :: acc)
-          end
+          if ttype_eqb (fst h) TStop then Ok (rev acc, s)
+          else
+            let* (x, s) := rec (fst h) s in
+            fields_loop n' s ((match snd h with Some i => i | None => 0 end, x) :: acc)
       end.
 
     Fixpoint elems_loop (m : nat) (et : ttype) (n : Z) (s : rst) (acc : list tval) {struct m}
